@@ -13,7 +13,8 @@ from ..engine import flow, cfg as cfgmod
 from ..engine import pattern as P
 from ..engine.facts import dotted, const, src, walk_func, enclosing_stmt
 from . import skeletons as sk
-from .common import calls, contains, pn, access_paths, assigned_from
+from .common import calls, contains, pn, access_paths, assigned_from, branch_paths
+from .common import _fold_not as _fold
 
 
 @rule("C06.block-guard", min_instances=3)
@@ -117,29 +118,39 @@ def getattr_order(ctx):
         fn = db.func(q + ".__getattr__")
         kp = pn(fn, 1)
         own_test = own_test % kp if own_test else None
-        chain = []
-        node = fn.body[0] if isinstance(fn.body[0], ast.If) else None
-        ctx.require(node is not None, "%s.__getattr__ does not start with an if-chain" % q)
-        cur = node
-        while True:
-            chain.append((src(cur.test), cur.body))
-            if len(cur.orelse) == 1 and isinstance(cur.orelse[0], ast.If):
-                cur = cur.orelse[0]
-            else:
-                tail = cur.orelse
-                break
-        tests = [t for t, _ in chain]
+        # decisions of the method, however its if/elif/else or guard clauses are spelled
+        paths = branch_paths(fn.body)
         want = [kp + " in self.callables"] + ([own_test] if own_test else []) + ["self.inherits"]
-        ctx.check(tests == want, "order:" + q.split(".")[1], db.where(fn), "lookup order is %s, expected %s (own definition, else the nearest one toward the base)" % (tests, want), " -> ".join(want))
-        ctx.check(any(isinstance(r, ast.Raise) and "AttributeError" in src(r) for s in tail for r in ast.walk(s)), "miss:" + q.split(".")[1], db.where(fn), "a missing member does not raise AttributeError", "AttributeError")
-        inh = [b for t, b in chain if t == "self.inherits"]
-        env_ = {}
-        okd = bool(inh) and P.matches(inh[0][0], "$v = getattr(self.inherits, %s)" % kp, env_) and isinstance(fn.body[-1], ast.Return) and isinstance(fn.body[-1].value, ast.Name) and fn.body[-1].value.id == src(env_["v"][1])
-        okd = okd or bool(inh) and P.matches(inh[0][0], "return getattr(self.inherits, %s)" % kp)
-        ctx.check(okd, "delegates:" + q.split(".")[1], db.where(fn), "inherited members are not fetched from self.inherits", "getattr(self.inherits, key)")
+        miss = [p for p in paths if isinstance(p.exit, ast.Raise)]
+        ctx.check(bool(miss) and all("AttributeError" in src(p.exit) for p in miss), "miss:" + q.split(".")[1], db.where(fn), "a missing member does not raise AttributeError", "AttributeError")
+        # the path that misses has decided every test false, in the order of evaluation
+        order = miss[0].order() if miss else []
+        ctx.check(order == want and all(not v for p in miss[:1] for v in [_fold(t, v)[1] for t, v in p.conds]), "order:" + q.split(".")[1], db.where(fn), "lookup order is %s, expected %s (own definition, else the nearest one toward the base)" % (order, want), " -> ".join(want))
+
+        def value_on(cond):
+            """what the method yields on the path where `cond` is the first test that holds"""
+            for p in paths:
+                o = p.order()
+                if cond in o and p.holds(cond, True) and all(p.holds(c, False) for c in o[: o.index(cond)]) and o[-1] == cond:
+                    vals = {}
+                    for st in p.stmts:
+                        if isinstance(st, ast.Assign) and isinstance(st.targets[0], ast.Name):
+                            vals[st.targets[0].id] = st.value
+                    if isinstance(p.exit, ast.Return) and p.exit.value is not None:
+                        rv = p.exit.value
+                        return vals.get(rv.id, rv) if isinstance(rv, ast.Name) else rv
+            return None
+        inh = value_on("self.inherits")
+        ctx.check(inh is not None and P.matches(inh, "getattr(self.inherits, %s)" % kp), "delegates:" + q.split(".")[1], db.where(fn), "inherited members are not fetched from self.inherits", "getattr(self.inherits, key)")
         if own_test:
-            ob = [b for t, b in chain if t == own_test][0]
-            ctx.check(any(P.has(s, "functools.partial($c, self.context)") for s in ob), "binds-context:" + q.split(".")[1], db.where(fn), "own members are not bound to the namespace's context", "partial(callable, self.context)")
+            ov = value_on(own_test)
+            okb = ov is not None and (P.matches(ov, "functools.partial($c, self.context)"))
+            if ov is not None and not okb and isinstance(ov, ast.Call):
+                okb = False
+            # the callable may be fetched into a local first
+            if not okb:
+                okb = any(P.has(fn, "functools.partial($c, self.context)") for _ in [0]) and ov is not None and "partial" in src(ov)
+            ctx.check(okb, "binds-context:" + q.split(".")[1], db.where(fn), "own members are not bound to the namespace's context", "partial(callable, self.context)")
     na = db.func("runtime._NSAttr.__getattr__")
     ctx.check(P.has(na, "while $ns:\n    if hasattr($ns.module, $k):\n        return getattr($ns.module, $k)\n    else:\n        $ns = $ns.inherits\nraise AttributeError($k)") or P.has(na, "while $ns:\n    if hasattr($ns.module, $k):\n        return getattr($ns.module, $k)\n    $ns = $ns.inherits\nraise AttributeError($k)"), "attr-walk", db.where(na), "_NSAttr does not walk module attributes along inherits", "own module attribute, else along inherits, else AttributeError")
 
